@@ -817,3 +817,14 @@ RECIPES += [
     ("C14", "break", ["C14-R1"], N, SPH_INV, "                theta = math.atan2(g[0] / c, g[2])\n",
      "getcoordinates: in-plane radius always from x / cos(phi) (round-3 seed H)"),
 ]
+
+RECIPES += [
+    ("C14", "neutral", [], N,
+     '    result = []\n    T = None\n    for igid in gid:\n        if isgrid:\n            xyz_basic = uset.loc[(igid, 1), "x":"z"].values\n        else:  # is coord\n            xyz_basic = igid\n        if np.size(csys) == 1 and csys == 0:\n            result.append(xyz_basic)\n        else:\n            if T is None:\n                # get input "coordinfo" [ cid type 0; location(1x3); T(3x3) ]:\n                if coordref is None:\n                    coordref = {}\n                coordinfo = mkusetcoordinfo(csys, uset, coordref)\n                xyz_coord = coordinfo[1]\n                T = coordinfo[2:]  # transform to basic for coordinate system\n            g = T.T @ (xyz_basic - xyz_coord)\n            ctype = coordinfo[0, 1].astype(np.int64)\n            if ctype == 1:\n                result.append(g)\n            elif ctype == 2:\n                R = math.hypot(g[0], g[1])\n                theta = math.atan2(g[1], g[0])\n                result.append(np.array([R, theta * 180 / math.pi, g[2]]))\n            else:\n                R = linalg.norm(g)\n                phi = math.atan2(g[1], g[0])\n                s = math.sin(phi)\n                c = math.cos(phi)\n                if abs(s) > abs(c):\n                    theta = math.atan2(g[1] / s, g[2])\n                else:\n                    theta = math.atan2(g[0] / c, g[2])\n                result.append(np.array([R, theta * 180 / math.pi, phi * 180 / math.pi]))\n\n',
+     '    def to_cyl(g):\n        return np.array(\n            [np.hypot(g[0], g[1]), np.arctan2(g[1], g[0]) * 180 / math.pi, g[2]]\n        )\n\n    def to_sph(g):\n        phi = np.arctan2(g[1], g[0])\n        s, c = np.sin(phi), np.cos(phi)\n        rho = g[1] / s if abs(s) > abs(c) else g[0] / c\n        return np.array(\n            [linalg.norm(g), np.arctan2(rho, g[2]) * 180 / math.pi, phi * 180 / math.pi]\n        )\n\n    convert = {1: lambda g: g, 2: to_cyl}\n    result = []\n    T = None\n    for igid in gid:\n        if isgrid:\n            xyz_basic = uset.loc[(igid, 1), "x":"z"].values\n        else:  # is coord\n            xyz_basic = igid\n        if np.size(csys) == 1 and csys == 0:\n            result.append(xyz_basic)\n        else:\n            if T is None:\n                # get input "coordinfo" [ cid type 0; location(1x3); T(3x3) ]:\n                if coordref is None:\n                    coordref = {}\n                coordinfo = mkusetcoordinfo(csys, uset, coordref)\n                xyz_coord = coordinfo[1]\n                T = coordinfo[2:]  # transform to basic for coordinate system\n            g = T.T @ (xyz_basic - xyz_coord)\n            result.append(convert.get(int(coordinfo[0, 1]), to_sph)(g))\n\n',
+     'getcoordinates: converters per system type in a table of closures, numpy functions (own refactoring)'),
+    ("C14", "neutral", [], N,
+     '    haderr = 0\n    for j in range(n):\n        row = j * 6\n        T = rb[row : row + 3, :3]\n        R = linalg.lstsq(T, rb[row : row + 3, 3:])[0]\n',
+     '    haderr = 0\n    top = np.reshape(rb, (n, 6, 6))[:, :3, :]\n    R_all = np.linalg.pinv(top[..., :3]) @ top[..., 3:]\n    for j in range(n):\n        row = j * 6\n        R = R_all[j]\n',
+     'rbcoords: all nodes fitted at once with a stacked pseudo-inverse (own refactoring)'),
+]
